@@ -9,7 +9,7 @@ from ..effects import MUTATORS
 from ..model import AnalysisError, ClassInfo, FuncInfo, Program, dotted, norm
 from ..report import Check
 from ..types import FuncScope, members, types_of, walk_own
-from ..util import assigned_names, calls_in, node_exprs, short, walk_no_defs
+from ..util import assigned_names, calls_in, guard_edges, node_exprs, short, walk_no_defs
 
 OPENAPI = 'pjrpc.server.specs.openapi.OpenAPI'
 OPENRPC = 'pjrpc.server.specs.openrpc.OpenRPC'
@@ -205,7 +205,28 @@ class Borrow:
 
 
 def generator_funcs(prog: Program, ci: ClassInfo) -> List[FuncInfo]:
-    return [m for m in ci.methods.values() if m.name == 'schema' or m.name.startswith('_extract') or m.name.startswith('_build')]
+    own = [m for m in ci.methods.values() if m.name == 'schema' or m.name.startswith('_extract') or m.name.startswith('_build')]
+    # plus the module-level helpers of pjrpc.server.specs they (or the extractors) call: build_request_schema, build_response_schema, …
+    ty = types_of(prog)
+    seen = {f.qualname for f in own}
+    out = list(own)
+    work = list(own)
+    ext = prog.classes.get(BASE_EXTRACTOR)
+    if ext is not None:
+        for ec in prog.subclasses(ext):
+            work += [m for m in ec.methods.values() if m.name.startswith('extract_')]
+    while work:
+        f = work.pop()
+        sc = FuncScope(f, ty)
+        for x in walk_own(f.node):
+            if isinstance(x, ast.Call):
+                for k, o in ty.callees(x, sc):
+                    if k == 'func' and isinstance(o, FuncInfo) and o.cls is None and o.module.name.startswith('pjrpc.server.specs') \
+                            and o.qualname not in seen:
+                        seen.add(o.qualname)
+                        out.append(o)
+                        work.append(o)
+    return out
 
 
 def run(ck: Check, prog: Program) -> None:
@@ -406,6 +427,18 @@ def _ref_closed(ck: Check, prog: Program, ci: ClassInfo, funcs: List[FuncInfo]) 
                         regs.append(_key_prefix(a.key))
                     elif isinstance(a, ast.Name) and 'component' in a.id:
                         regs.append('')
+            # the registration must not depend on the CONTENT of the returned schema (references can be nested anywhere in it)
+            cfg_f = CFG(f, prog)
+            for nd in cfg_f.stmt_nodes():
+                for c2 in calls_in(nd):
+                    if isinstance(c2.func, ast.Attribute) and c2.func.attr == 'update' and c2.args and \
+                            (isinstance(c2.args[0], ast.DictComp) or (isinstance(c2.args[0], ast.Name) and 'component' in c2.args[0].id)):
+                        for g in guard_edges(cfg_f, nd):
+                            e = g.src.ast
+                            if isinstance(e, ast.Compare) and isinstance(e.ops[0], (ast.In, ast.NotIn)) and isinstance(e.left, ast.Constant):
+                                ck.finding('REF-CLOSED', f.qualname, f'components registered only when {norm(e)[:40]}', f.module.rel, nd.line,
+                                           f'`{norm(c2)[:60]}` runs only when `{norm(e)}`: a $ref nested deeper in the schema (List[Model], Optional[Model], '
+                                           f'Dict[str, Model]) is generated but its definition is not registered, so the document contains a dangling $ref')
             ok = pref is not None and regs and all(r == pref for r in regs)
             ck.ob('REF-CLOSED', f'{short(f.qualname)}: components are registered under the prefix used in ref_template', bool(ok),
                   sample={'ref_prefix': pref, 'registered_prefixes': regs})
